@@ -251,6 +251,7 @@ class Runner:
         self.dir = ctx.scratch / "cwd"
         self.dir.mkdir(exist_ok=True)
         self.cache: Dict[Tuple[str, ...], Any] = {}
+        self.by_key: Dict[str, Dict[str, Any]] = {}
         _classes()
 
     def run(self, argv: Sequence[str], files: Dict[str, str]) -> Dict[str, Any]:
@@ -327,8 +328,21 @@ def diff_options(a: Any, b: Any) -> Dict[str, Any]:
 
 def evaluate(run: Runner, o: Dict[str, Any], scn: Dict[str, Any], ref: Dict[str, Any]) -> Dict[str, Any]:
     """Run one scenario for real; returns observed facts and the list of failed clauses."""
-    exp = run.expected(cli_args(o, ref["val"], "eq" if o["kind"] in ("store", "append") else "long"))
+    canon = lambda x, v: cli_args(x, v, "eq" if x["kind"] in ("store", "append") else "long")
+    exp_argv = canon(o, ref["val"])
     argv = cli_args(o, scn["cli"]["v"], scn["spell"], scn.get("cname", 1)) if scn["cli"]["has"] else []
+    order_dependent = None
+    if scn.get("comp"):
+        # a second, different option on the command line: the reference is the command line naming both - in
+        # either order (options do not get in each other's way)
+        oc = run.by_key[scn["comp"]]
+        comp_argv = canon(oc, [1])
+        argv = argv + comp_argv
+        other = run.expected(comp_argv + exp_argv)
+        exp_argv = exp_argv + comp_argv
+        if run.expected(exp_argv) != other:
+            order_dependent = diff_options(run.expected(exp_argv), other)
+    exp = run.expected(exp_argv)
     text = file_text(o, scn)
     fname = FILES[scn["fmt"]][0]
     if scn.get("via") == "config":                       # not one of the default names: found through --config only
@@ -338,6 +352,9 @@ def evaluate(run: Runner, o: Dict[str, Any], scn: Dict[str, Any], ref: Dict[str,
     got = run.run(argv, files)
     failed: List[str] = []
     obs: Dict[str, Any] = {"exit": got["exit"], "warn": got["warn"]}
+    if order_dependent is not None:
+        failed.append("OptionsIndependent")
+        obs["command_line_order_matters"] = order_dependent
     if got["exit"] != ref["abort"]:
         failed.append("NoAbort")
         obs["stderr"] = got.get("stderr")
@@ -589,6 +606,7 @@ def part_merge(ctx: Ctx, rng: random.Random) -> int:
     if len(recs) != r.distinct or not recs:
         raise MachineryError(f"TLC printed {len(recs)} scenarios for {r.distinct} states")
     by_key = {o["key"]: o for o in opts}
+    run.by_key = by_key
     seen_opts, kinds = set(), {}
     spec_kf = 0
     for n, rec in enumerate(recs):
@@ -603,7 +621,7 @@ def part_merge(ctx: Ctx, rng: random.Random) -> int:
             ctx.violation({"invariant": out["failed"][0], "failed": out["failed"], "kind": "merge", "scn": scn,
                            "argv": out["argv"], "file": out["file"], "expected": ref, "observed": out["observed"],
                            "key": f"merge:{scn['key']}:{scn['fmt']}:{scn.get('via')}:{scn['fstyle']}:{scn['spell']}:{scn['unknown']}:"
-                                  f"{scn.get('twice')}:{scn['file']['v']}:{scn['cli']['v']}:{scn.get('place')}:{scn.get('fname')}{scn.get('cname')}:{out['failed']}"})
+                                  f"{scn.get('comp')}:{scn.get('twice')}:{scn['file']['v']}:{scn['cli']['v']}:{scn.get('place')}:{scn.get('fname')}{scn.get('cname')}:{out['failed']}"})
         else:
             ob = out["observed"]
             if ob.get("abs") is not None and (ob["abs"] != impl["val"] or bool(ob["warn"]) != impl["warn"]):
@@ -623,7 +641,7 @@ def part_merge(ctx: Ctx, rng: random.Random) -> int:
     o = by_key["project-name"]
     scn = {"opt": 0, "key": "project-name", "kind": "store", "fmt": "toml", "via": "default", "file": {"has": True, "v": [1]},
            "fstyle": "string", "cli": {"has": False, "v": []}, "spell": "none", "unknown": "none", "place": "main",
-           "fname": 1, "cname": 1, "twice": False}
+           "fname": 1, "cname": 1, "twice": False, "comp": ""}
     e_good = evaluate(run, o, scn, {"val": [1], "warn": False, "abort": False})
     e_bad = evaluate(run, o, scn, {"val": [2], "warn": False, "abort": False})
     bad2 = evaluate(run, o, scn, {"val": [1], "warn": True, "abort": False})["failed"]
@@ -839,8 +857,11 @@ def replay(ctx: Ctx, path: str) -> int:
     w = json.load(open(path))
     bad: Any = None
     if w.get("kind") == "merge":
-        o = {x["key"]: x for x in option_table()}[w["scn"]["key"]]
-        out = evaluate(Runner(ctx), o, w["scn"], w["expected"])
+        table = {x["key"]: x for x in option_table()}
+        o = table[w["scn"]["key"]]
+        runner = Runner(ctx)
+        runner.by_key = table
+        out = evaluate(runner, o, w["scn"], w["expected"])
         bad = out["failed"] and {"failed": out["failed"], "observed": out["observed"]}
     elif w.get("kind") == "history":
         run = Runner(ctx)
